@@ -24,6 +24,7 @@ RULES = {
     "f1": {("s_f1", "c_f1"): "pulse_on_hit_and_enable_and_release"},
     "f2": {("s_f2", "c_f2_main"): "pulse_on_hit_and_release_and_disable", ("s_f2_eos", "c_f2_main"): "pulse_on_hit_and_release_and_disable",
            ("s_f2", "c_f2_hold"): "pulse_on_hit_and_enable_and_release"},
+    "f3": {("s_f3", "c_f3"): "pulse_on_hit_and_enable_and_release_and_disable", ("s_f3_eos", "c_f3"): "pulse_on_hit_and_enable_and_release_and_disable"},
     "a1": {("s_a1", "c_a1"): "pulse_on_hit"},
     "k1": {("s_k1", "c_k1"): "pulse_on_hit"},
 }
@@ -45,7 +46,9 @@ def body(S, t, part):
     m = t.machine
     S.now_symbolic(t.loop)
     plat = m.default_platform
-    devs = {"f1": m.flippers["f1"], "f2": m.flippers["f2"], "a1": m.autofire_coils["a1"], "k1": m.kickbacks["k1"]}
+    devs = {"f1": m.flippers["f1"], "f2": m.flippers["f2"], "f3": m.flippers["f3"], "a1": m.autofire_coils["a1"], "k1": m.kickbacks["k1"]}
+    flipper_coils = {"c_f1": "f1", "c_f2_main": "f2", "c_f2_hold": "f2", "c_f3": "f3"}
+    fired_while_disabled = []
     sw_by_hw = {s.hw_switch: s.name for s in m.switches.values()}
     coil_by_hw = {c.hw_driver: c.name for c in m.coils.values()}
     installs = []
@@ -57,11 +60,15 @@ def body(S, t, part):
             return _orig(*a, **kw)
         setattr(plat, fn, wrap)
     coil_state = {}
-    for cname in ("c_f1", "c_f2_main", "c_f2_hold"):
+    def coil_cmd(c, what):
+        coil_state[c] = what
+        if what != "off" and not devs[flipper_coils[c]]._enabled:
+            fired_while_disabled.append((c, what))
+    for cname in flipper_coils:
         drv = m.coils[cname].hw_driver
-        drv.enable = (lambda ps, hs, _c=cname: coil_state.__setitem__(_c, "on"))
-        drv.disable = (lambda _c=cname: coil_state.__setitem__(_c, "off"))
-        drv.pulse = (lambda ps, _c=cname: coil_state.__setitem__(_c, "pulsed"))
+        drv.enable = (lambda ps, hs, _c=cname: coil_cmd(_c, "on"))
+        drv.disable = (lambda _c=cname: coil_cmd(_c, "off"))
+        drv.pulse = (lambda ps, _c=cname: coil_cmd(_c, "pulsed"))
     # start a game: ball_started enables flippers and autofires
     m.switch_controller.process_switch("s_start", 1, logical=True)
     m.switch_controller.process_switch("s_start", 0, logical=True)
@@ -69,7 +76,7 @@ def body(S, t, part):
     if m.game is None:
         raise Violation("harness", "start", "no game")
     must_be_off = {k: False for k in devs}          # explicit disable since the last explicit enable
-    must_be_on = {"f1": True, "f2": True, "k1": False, "a1": None}
+    must_be_on = {"f1": True, "f2": True, "f3": True, "k1": False, "a1": None}
     removed = installed = 0
 
     def table():
@@ -94,14 +101,16 @@ def body(S, t, part):
             missing = {k: v for k, v in want.items() if got.get(k) != v}
             raise Violation("rules-equal-enabled-devices", "PlatformController.clear_hw_rule" if extra else "Flipper.enable",
                             "%s: extra rules %s, missing rules %s (enabled: %s)" % (where, extra, missing, {k: bool(d._enabled) for k, d in devs.items()}))
-        for k in ("f1", "f2"):
+        if fired_while_disabled:
+            raise Violation("buttons-cannot-fire-coils-of-disabled-flippers", "SoftwareEosRepulseManager", "%s: coil commands while the flipper is disabled: %s" % (where, fired_while_disabled))
+        for k in ("f1", "f2", "f3"):
             if not devs[k]._enabled:
-                for c in (("c_f1",) if k == "f1" else ("c_f2_main", "c_f2_hold")):
+                for c in [c for c, f in flipper_coils.items() if f == k]:
                     if coil_state.get(c) == "on":
                         raise Violation("no-flipper-coil-left-energised", "Flipper.disable", "%s: flipper %s is disabled but coil %s was last switched on" % (where, k, c))
     # the game's own ball_started / ball_will_end events are requests like any other: follow them in the model
     def on_ball_started(**kwargs):
-        for k2 in ("f1", "f2", "a1"):
+        for k2 in ("f1", "f2", "f3", "a1"):
             must_be_off[k2] = False
             must_be_on[k2] = True if k2 != "a1" else None
 
@@ -117,9 +126,20 @@ def body(S, t, part):
     for i in range(part["n"]):
         op = part["ops"][i] if i < len(part["ops"]) else part["alphabet"][S.choice("op%d" % i, len(part["alphabet"]))]
         tgt = None
-        if op in ("enable", "disable", "flip", "release", "ball_search"):
+        if ":" in op:
+            bits = op.split(":")
+            op = bits[0]
+            if op == "sw":
+                m.switch_controller.process_switch(bits[1], int(bits[2]), logical=True)
+                op = "switch"
+            else:
+                tgt = bits[1]
+        if op == "switch":
+            pass
+        elif op in ("enable", "disable", "flip", "release", "ball_search"):
             names = ["f1", "f2"] if op in ("flip", "release", "ball_search") else ["f1", "f2", "a1", "k1"]
-            tgt = names[S.choice("target%d" % i, len(names))]
+            if tgt is None:
+                tgt = names[S.choice("target%d" % i, len(names))]
             d = devs[tgt]
             before = len(installs)
             was = bool(d._enabled)
@@ -129,7 +149,7 @@ def body(S, t, part):
                 if tgt != "a1":
                     must_be_on[tgt] = True
                 n_new = len(installs) - before
-                exp = 0 if was else {"f1": 1, "f2": 2, "a1": 1, "k1": 1}[tgt]
+                exp = 0 if was else {"f1": 1, "f2": 2, "f3": 1, "a1": 1, "k1": 1}[tgt]
                 if n_new != exp:
                     raise Violation("enabling-installs-each-rule-once", type(d).__name__ + ".enable", "enable(%s) while enabled=%s made %d rule installations, expected %d" % (tgt, was, n_new, exp))
                 installed += n_new
@@ -147,7 +167,7 @@ def body(S, t, part):
         elif op == "hits":
             k = S.int("hits%d" % i, 1, 4)
             dt = S.real("hit_gap%d" % i, 0, 0.4)
-            which = "s_a1" if S.bool("hits_on_autofire%d" % i) else "s_k1"
+            which = "s_a1" if (tgt == "a1" or (tgt is None and S.bool("hits_on_autofire%d" % i))) else "s_k1"
             for _ in range(4):
                 if _ < k:
                     m.switch_controller.process_switch(which, 1, logical=True)
@@ -179,6 +199,8 @@ def scenarios(tier):
         firsts = [["hits", "enable", "disable"], ["flip", "disable"], ["ball_search", "ball_will_end"], ["disable", "enable"], ["hits", "ball_will_end"],
                   ["flip", "service"], ["enable", "tilt"], ["ball_will_end", "ball_started"]]
         parts = [dict(ops=f, n=len(f) + 1, alphabet=alpha) for f in firsts]
+        parts.append(dict(ops=["hits:a1", "enable:a1", "disable:a1", "wait"], n=4, alphabet=alpha))            # timeout re-enable vs. explicit disable
+        parts.append(dict(ops=["sw:s_f3:1", "sw:s_f3_eos:1", "disable:f3", "sw:s_f3_eos:0"], n=4, alphabet=alpha))   # software EOS repulse after disable
     else:
         parts = [dict(ops=[a, b], n=5, alphabet=alpha + ["tilt", "ball_started"]) for a in alpha for b in ("enable", "disable", "hits", "ball_will_end", "wait")]
     pb = 80 if tier == "quick" else 400
